@@ -102,10 +102,10 @@ func hostSockIDs(w *simnet.World, h *simnet.Host) map[int]bool {
 
 // outstanding transactions of `ag`: Binding requests it sent whose response was not yet delivered to it.
 type txInfo struct {
-	id      [stun.TransactionIDSize]byte
-	dst     netip.AddrPort
-	src     netip.AddrPort
-	age     time.Duration
+	id       [stun.TransactionIDSize]byte
+	dst      netip.AddrPort
+	src      netip.AddrPort
+	age      time.Duration
 	answered bool
 }
 
